@@ -59,6 +59,13 @@ class Environment(object):
                 self.conn = Client(addr)
             except Exception as e:
                 if time.time() - start > 5:
+                    # the process that did not come up in time must not stay
+                    # behind: the next call launches another one
+                    try:
+                        self.proc.kill()
+                        self.proc.wait()
+                    except Exception:
+                        pass
                     raise Exception('Supp server launching timeout exceed: ' + str(e))
 
                 time.sleep(0.3)
